@@ -8,13 +8,20 @@ domain (',', '*', '**', '*,', ',*', digit strings ...).  The oracle is a plain-d
 
   (1) obj.to_dict(): the complete option matrix  only x exclude x with_collections x with_lazy x related_objects
       (lists, tuples, comma / space strings, unknown names) on objects in the states loaded / pk-only seed /
-      modified-unflushed / created-unflushed / partially loaded collection / modified-and-flushed; expected value
-      computed from the model and the option semantics of EntityMeta._get_attrs_.
+      modified-unflushed / created-unflushed / partially loaded collection / modified-and-flushed / loaded object that
+      references (to-one) and contains (one-to-many, many-to-many) brand-new unflushed objects of AUTO-key entities /
+      such a new object itself; expected value computed from the model and the option semantics of
+      EntityMeta._get_attrs_ (keys of new objects are resolved after the call: the call must have flushed).
   (2) serialization.Bag / to_dict / to_json: every object put in appears exactly once under its entity and key
       with the configured attributes; related objects according to related_objects; composite keys encoded
       injectively (bounded-exhaustive enumeration of key tuples + a reference decoder inverting the encoding).
   (3) Database.to_json / obj.to_json / QueryResult.to_json under a trivial view-permission for everybody.
-  (4) pickling of loaded objects, lists / dicts, SetInstance collections, QueryResult / Query, partially loaded
+      (2) and (3) also run on the 'references / contains unflushed auto-key objects' state, with and without everything
+      else preloaded (an incidental query flushes); positions that may then read None are exactly those of the new keys
+      (deviation rule of F_BAG_NOFLUSH / F_JSON_NOFLUSH).
+  (4) pickling of loaded objects, lists / dicts, SetInstance collections, QueryResult / Query, query results of every
+      producer (slice, limit / offset, page, fetch) in every materialisation state (untouched, len(), partially
+      iterated, indexed, `in`, repr, fully iterated), partially loaded
       objects and seeds in one session and unpickling in the next: loaded values equal the model, unloaded ones load
       correctly, identity with Entity[pk], collections equal the model; created / modified objects must refuse.
 
@@ -63,7 +70,7 @@ META = {
     'exhaustive_tiers': [],
 }
 SHARDS = {'quick': 1, 'thorough': 16}
-SHARD_TIMEOUT = {'quick': 300, 'thorough': 1500}
+SHARD_TIMEOUT = {'quick': 300, 'thorough': 2400}
 
 F_BAG_TRUNC = 'C31-BAG-PUT-OBJECT-TRUNCATED-WHEN-ALSO-RELATED'
 F_BAG_FIRSTCOL = 'C31-BAG-COLLECTION-KEY-FIRST-COLUMN-ONLY'
